@@ -679,7 +679,7 @@ def _check_optimiser_record(mon, tr, step, ph, o, active, requested, design_of, 
         if len(set(picks)) != len(picks):
             mon.violation("acq:duplicate-in-batch", f"{v}: batch picks {picks}", pub)
         vals = np.asarray(o["values"], float)
-        if (np.diff(vals) > 1e-12 * (1 + np.abs(vals).max())).any():
+        if (np.diff(vals) > (1e-6 if str(case.get("model", "")).startswith("real") else 1e-12) * (1 + np.abs(vals).max())).any():  # real GP: see DESIGN 9.3b
             mon.violation("acq:batch-not-non-increasing", f"{v}: batch values {vals}", pub)
         _check_joint_tables(mon, tr, step, ph, o, picks, design_of, pub)
         got = [i for i, _, _ in requested]
@@ -691,7 +691,7 @@ def _check_optimiser_record(mon, tr, step, ph, o, active, requested, design_of, 
         if len(set(pairs)) != len(pairs):
             mon.violation("acq:duplicate-in-batch", f"{v}: batch pairs {pairs}", pub)
         vals = np.asarray(o["values"], float)
-        if (np.diff(vals) > 1e-12 * (1 + np.abs(vals).max())).any():
+        if (np.diff(vals) > (1e-6 if str(case.get("model", "")).startswith("real") else 1e-12) * (1 + np.abs(vals).max())).any():  # real GP: see DESIGN 9.3b
             mon.violation("acq:batch-not-non-increasing", f"{v}: batch values {vals}", pub)
         # per-objective greedy lists (nested joint optimisations), each judged against its own tables
         pool = []
